@@ -44,7 +44,7 @@ def deliver (d : DSt) (l : Label) : DSt × Ans :=
   let r := ret d.s l
   let s1 := match r with
     | .blocked => (match l, d.s.held with
-        | .join n, none => (step d.s l).getD d.s      -- this is the handler that parks on the full queue
+        | .join _, none => (step d.s l).getD d.s      -- this is the handler that parks on the full queue
         | .leave _ _, none => (step d.s l).getD d.s
         | _, _ => d.s)
     | _ => (step d.s l).getD d.s
